@@ -586,6 +586,13 @@ def joinWith (st : Store) (t rhs : Rel) (pred : Pred) (backtrack transfer : Bool
     -- Join.partial: min_columns <= fix.columns (min_columns is empty here)
     applyOp st defaultFuel (.pj ⟨j, rhs, false⟩) t { backtrack := backtrack, transfer := transfer }
 
+/-- `Join(pred).partial(rhs).apply(t, preferred_engine=…, backtrack=…, transfer=…,
+require_preferred_engine=…)`: a join with automatic common columns and every `apply` option. -/
+def joinOpts (st : Store) (t rhs : Rel) (pred : Pred) (o : Opts) : Except Err Res :=
+  match JoinOp.make pred [] none with
+  | .error e => .error e
+  | .ok j => applyOp st defaultFuel (.pj ⟨j, rhs, false⟩) t o
+
 /-- `Join(pred, min_columns=S, max_columns=S).partial(rhs).apply(t, backtrack=…, transfer=…)`:
 a join with explicitly given common columns. -/
 def joinOn (st : Store) (t rhs : Rel) (pred : Pred) (common : Cols) (backtrack transfer : Bool) :
